@@ -52,8 +52,30 @@ fn write_event(out: &mut Out, nr: usize, nc: usize, ones: &[(usize, usize)], pad
     let base = json!({"nr": nr, "nc": nc, "cols": cols, "padded": padded});
     let text = guarded(|| {
         let mut h = SparseMatrix::new(nr, nc);
-        for &(r, c) in ones {
-            h.insert(r, c); // insertion order as given (unsorted): the writer must sort
+        // "for every matrix": however it was built.  Four construction histories, chosen by the content
+        let hist = ones.iter().fold(nr * 3 + nc, |a, &(r, c)| a.wrapping_mul(31).wrapping_add(r * 17 + c)) % 4;
+        match hist {
+            1 => {
+                // rows (columns) that first hold OTHER ones, then replaced with set_row / set_col (= clear + insert)
+                for r in 0..nr { let junk: Vec<usize> = (0..nc).filter(|c| (c + r) % 2 == 0 || *c == r).collect(); h.insert_row(r, junk.iter()); }
+                if ones.len() % 2 == 0 {
+                    for r in 0..nr { let l: Vec<usize> = ones.iter().filter(|p| p.0 == r).map(|p| p.1).collect(); h.set_row(r, l.iter()); }
+                } else {
+                    for c in (0..nc).rev() { let l: Vec<usize> = ones.iter().filter(|p| p.1 == c).map(|p| p.0).collect(); h.set_col(c, l.iter()); }
+                }
+            }
+            2 => {
+                // inserted, removed again by toggle / remove / clear_col, inserted again
+                for &(r, c) in ones { h.insert(r, c); }
+                for (k, &(r, c)) in ones.iter().enumerate() { if k % 3 == 0 { h.toggle(r, c); } else if k % 3 == 1 { h.remove(r, c); } }
+                if nc > 0 { h.clear_col(nc - 1); }
+                for &(r, c) in ones.iter().rev() { h.insert(r, c); }
+            }
+            _ => {
+                for &(r, c) in ones {
+                    h.insert(r, c); // insertion order as given (unsorted): the writer must sort
+                }
+            }
         }
         let s = if padded { h.alist() } else { h.alist_no_padding() };
         // write_alist into a String must give the same text
